@@ -259,7 +259,7 @@ Qed.
 Lemma sys_unselect_ok : forall st c m mb, SysInv st -> sel_of st c = Some (m, mb) ->
   SysInv (sys_unselect st c) /\
   view_of (sys_unselect st c) c = None /\
-  get (s_conns (sys_unselect st c)) c = Some (mkConn None false) /\
+  get (s_conns (sys_unselect st c)) c = Some (mkConn None false false) /\
   length (s_conns (sys_unselect st c)) = length (s_conns st) /\
   (forall c', c' <> c -> view_of (sys_unselect st c) c' = view_of st c' /\
                          get (s_conns (sys_unselect st c)) c' = get (s_conns st) c' /\
@@ -308,16 +308,16 @@ Proof.
 Qed.
 
 (* UserSession.Select on a connection that has nothing selected *)
-Lemma sys_select_ok : forall st c cn m mb mb' cr, SysInv st -> get (s_conns st) c = Some cn ->
+Lemma sys_select_ok : forall st c cn m mb mb' cr ro, SysInv st -> get (s_conns st) c = Some cn ->
   c_sel cn = None -> get (s_mbs st) m = Some mb -> mb_do mb (ONewSession c) = (mb', cr) ->
-  let st' := put_conn (put_mb st m mb' cr) c (mkConn (Some m) false) in
+  let st' := put_conn (put_mb st m mb' cr) c (mkConn (Some m) false ro) in
   SysInv st' /\ view_of st' c = Some (uids_of mb) /\
   length (s_conns st') = length (s_conns st) /\
   (forall c', c' <> c -> view_of st' c' = view_of st c' /\ get (s_conns st') c' = get (s_conns st) c' /\
                          same_sess st st' c') /\
   cr = false.
 Proof.
-  intros st c cn m mb mb' cr HI Hc Hsel Hm Hdo st'.
+  intros st c cn m mb mb' cr ro HI Hc Hsel Hm Hdo st'.
   pose proof (si_mb _ HI _ _ Hm) as Hmb.
   assert (Hnin : ~ In c (sids mb)).
   { intro Hin. destruct (si_sess _ HI _ _ _ Hm Hin) as (cn0 & Hc0 & Hs0). congruence. }
@@ -335,7 +335,7 @@ Proof.
         -- destruct (si_sess _ HI _ _ _ Hm Hin) as (cnx & Hcx & Hsx).
            assert (x <> c) by (intro; subst x; congruence).
            exists cnx. rewrite get_put_other by congruence. auto.
-        -- exists (mkConn (Some m0) false). split; [eapply get_put_same; eauto|reflexivity].
+        -- exists (mkConn (Some m0) false ro). split; [eapply get_put_same; eauto|reflexivity].
       * rewrite get_put_other in H0 by assumption.
         destruct (si_sess _ HI _ _ _ H0 Hin) as (cnx & Hcx & Hsx).
         assert (x <> c). { intro. subst x. rewrite Hc in Hcx. inversion Hcx; subst. congruence. }
@@ -627,19 +627,19 @@ Proof.
   - eapply hspec_poll_done; eauto.
 Qed.
 
-Lemma put_conn_idle_ok : forall st c cn b, SysInv st -> get (s_conns st) c = Some cn ->
-  SysInv (put_conn st c (mkConn (c_sel cn) b)) /\
-  (forall c', sel_of (put_conn st c (mkConn (c_sel cn) b)) c' = sel_of st c') /\
-  (forall c', c' <> c -> get (s_conns (put_conn st c (mkConn (c_sel cn) b))) c' = get (s_conns st) c').
+Lemma put_conn_idle_ok : forall st c cn b r, SysInv st -> get (s_conns st) c = Some cn ->
+  SysInv (put_conn st c (mkConn (c_sel cn) b r)) /\
+  (forall c', sel_of (put_conn st c (mkConn (c_sel cn) b r)) c' = sel_of st c') /\
+  (forall c', c' <> c -> get (s_conns (put_conn st c (mkConn (c_sel cn) b r))) c' = get (s_conns st) c').
 Proof.
-  intros st c cn b HI Hc.
+  intros st c cn b r HI Hc.
   assert (Hcne : get (s_conns st) c <> None) by congruence.
   split; [|split].
   - constructor; simpl.
     + intros. eapply si_mb; eauto.
     + intros m mb x Hm Hin. destruct (si_sess _ HI _ _ _ Hm Hin) as (cnx & Hcx & Hsx).
       destruct (N.eq_dec c x) as [->|Hne].
-      * rewrite Hc in Hcx. inversion Hcx; subst. exists (mkConn (c_sel cnx) b).
+      * rewrite Hc in Hcx. inversion Hcx; subst. exists (mkConn (c_sel cnx) b r).
         split; [eapply get_put_same; eauto|assumption].
       * exists cnx. rewrite get_put_other by assumption. auto.
     + intros x cnx m Hx Hsx. destruct (N.eq_dec c x) as [->|Hne].
@@ -653,13 +653,13 @@ Proof.
   - intros c' Hne. simpl. apply get_put_other. congruence.
 Qed.
 
-Lemma hspec_set_idle : forall st c ctx cn b evs, SysInv st -> get (s_conns st) c = Some cn ->
-  neutral ctx (view_of st c) evs -> hspec st c ctx (put_conn st c (mkConn (c_sel cn) b)) evs.
+Lemma hspec_set_idle : forall st c ctx cn b r evs, SysInv st -> get (s_conns st) c = Some cn ->
+  neutral ctx (view_of st c) evs -> hspec st c ctx (put_conn st c (mkConn (c_sel cn) b r)) evs.
 Proof.
-  intros st c ctx cn b evs HI Hc Hn. destruct (put_conn_idle_ok st c cn b HI Hc) as (HI' & Hs & Hg).
-  assert (Hv : forall c', view_of (put_conn st c (mkConn (c_sel cn) b)) c' = view_of st c').
+  intros st c ctx cn b r evs HI Hc Hn. destruct (put_conn_idle_ok st c cn b r HI Hc) as (HI' & Hs & Hg).
+  assert (Hv : forall c', view_of (put_conn st c (mkConn (c_sel cn) b r)) c' = view_of st c').
   { intros. rewrite !view_of_eq, Hs. reflexivity. }
-  assert (Hss : forall c', same_sess st (put_conn st c (mkConn (c_sel cn) b)) c').
+  assert (Hss : forall c', same_sess st (put_conn st c (mkConn (c_sel cn) b r)) c').
   { intros c' m mb sv H1 H2. rewrite Hs in H1. exists mb, sv. auto. }
   unfold hspec. split; [assumption|]. split; [simpl; apply put_length|]. split.
   - intros g t HJ. exists g, t. split; [rewrite Hv; apply Hn|]. eapply J_same_sess; eauto.
@@ -682,14 +682,14 @@ Proof.
 Qed.
 
 (* selecting a mailbox on a connection that has none selected *)
-Lemma hspec_select : forall st c cn ctx m mb mb' cr s d, SysInv st -> get (s_conns st) c = Some cn ->
+Lemma hspec_select : forall st c cn ctx m mb mb' cr ro s d, SysInv st -> get (s_conns st) c = Some cn ->
   c_sel cn = None -> get (s_mbs st) m = Some mb -> mb_do mb (ONewSession c) = (mb', cr) ->
   is_select ctx = true -> is_unselect ctx = false ->
-  hspec st c ctx (put_conn (put_mb st m mb' cr) c (mkConn (Some m) false))
+  hspec st c ctx (put_conn (put_mb st m mb' cr) c (mkConn (Some m) false ro))
         ([EvExists (len (mb_msgs mb)) (t_L (mb_tr mb)); EvUidNext (mb_next mb)] ++ [EvDone s d]).
 Proof.
-  intros st c cn ctx m mb mb' cr s d HI Hc Hsel Hm Hdo Hctx Hu.
-  destruct (sys_select_ok st c cn m mb mb' cr HI Hc Hsel Hm Hdo) as (HI2 & Hv2 & Hl2 & Ho2 & ->).
+  intros st c cn ctx m mb mb' cr ro s d HI Hc Hsel Hm Hdo Hctx Hu.
+  destruct (sys_select_ok st c cn m mb mb' cr ro HI Hc Hsel Hm Hdo) as (HI2 & Hv2 & Hl2 & Ho2 & ->).
   pose proof (si_mb _ HI _ _ Hm) as Hmb.
   assert (Hvn : view_of st c = None).
   { rewrite view_of_eq. unfold sel_of. rewrite Hc, Hsel. reflexivity. }
@@ -729,14 +729,14 @@ Proof.
     eapply hspec_poll_done with (allow := true); [assumption|cbn; discriminate|reflexivity|exact Ep].
   - (* CSelect *)
     destruct (sel_of st c) as [[m0 mb0]|] eqn:Es.
-    + pose proof (hspec_unselect st c (Some (CSelect mb)) m0 mb0 [EvClosed] HI Es (or_introl eq_refl)) as H1.
+    + pose proof (hspec_unselect st c (Some (CSelect mb ro)) m0 mb0 [EvClosed] HI Es (or_introl eq_refl)) as H1.
       destruct (sys_unselect_ok st c m0 mb0 HI Es) as (HI1 & Hv1 & Hc1 & Hl1 & Ho1).
       set (st1 := sys_unselect st c) in *.
       destruct (get (s_mbs st1) mb) as [mbx|] eqn:Em.
       * destruct (mb_do mbx (ONewSession c)) as [mb' cr] eqn:Ed. inv_pair Hh.
         match goal with |- hspec _ _ _ _ (?e :: ?l) => change (e :: l) with ([e] ++ l) end.
         eapply hspec_trans; [exact H1|].
-        eapply hspec_select with (cn := mkConn None false); eauto.
+        eapply hspec_select with (cn := mkConn None false false); eauto.
       * inv_pair Hh.
         match goal with |- hspec _ _ _ _ (?e :: ?l) => change (e :: l) with ([e] ++ l) end.
         eapply hspec_trans; [exact H1|]. apply hspec_done; auto.
@@ -751,7 +751,9 @@ Proof.
     + inv_pair Hh. apply hspec_done; auto.
   - (* CClose *)
     destruct (sel_of st c) as [[m0 mb0]|] eqn:Es.
-    + destruct (mb_expunge m_del mb0) as [mb' cr] eqn:Ee.
+    + destruct (ro_of st c) eqn:Er.
+      { inv_pair Hh. eapply hspec_unselect; eauto. right. split; [reflexivity|eexists; reflexivity]. }
+      destruct (mb_expunge m_del mb0) as [mb' cr] eqn:Ee.
       destruct (sel_sess _ _ _ _ HI Es) as (Hmb0 & sv & Hsv).
       destruct (mb_expunge_ok _ _ _ _ Hmb0 Ee) as (Hmb' & -> & Hv).
       inv_pair Hh. pose proof Es as Es0. apply sel_of_some in Es0. destruct Es0 as (cn0 & Hc0 & Hsel0 & Hm0).
@@ -773,7 +775,8 @@ Proof.
     destruct (sel_of st c) as [[m0 mb0]|] eqn:Es.
     2:{ inv_pair Hh. apply hspec_done; auto. }
     destruct (sel_sess _ _ _ _ HI Es) as (Hmb0 & sv & Hsv).
-    destruct (mb_fetch uidk wflags seen s c mb0) as [[mb' fevs] cr] eqn:Ef.
+    set (seen' := seen && negb (ro_of st c)) in *.
+    destruct (mb_fetch uidk wflags seen' s c mb0) as [[mb' fevs] cr] eqn:Ef.
     destruct (mb_fetch_ok _ _ _ _ _ _ _ _ _ Hmb0 Ef) as (Hmb' & -> & Hv & _ & Hev).
     destruct (sys_poll (put_mb st m0 mb' false) c uidk) as [st1 pevs] eqn:Ep. inv_pair Hh.
     eapply hspec_op_poll_done with (allow := uidk) (mb := mb0) (sv := sv); eauto.
@@ -782,6 +785,8 @@ Proof.
   - (* CStore *)
     destruct (sel_of st c) as [[m0 mb0]|] eqn:Es.
     2:{ inv_pair Hh. apply hspec_done; auto. }
+    destruct (ro_of st c) eqn:Er.
+    { inv_pair Hh. apply hspec_done; auto. }
     destruct (sel_sess _ _ _ _ HI Es) as (Hmb0 & sv & Hsv).
     destruct (mb_store uidk s o c mb0) as [mb1 c1] eqn:Est.
     destruct (mb_store_ok _ _ _ _ _ _ _ Hmb0 Est) as (Hmb1 & -> & Hv1 & _).
@@ -803,6 +808,9 @@ Proof.
   - (* CExpunge *)
     destruct (sel_of st c) as [[m0 mb0]|] eqn:Es.
     2:{ inv_pair Hh. apply hspec_done; auto. }
+    destruct (ro_of st c) eqn:Er.
+    { destruct (sys_poll st c true) as [st1 pevs] eqn:Ep. inv_pair Hh.
+      eapply hspec_poll_done with (allow := true); [assumption|cbn; discriminate|reflexivity|exact Ep]. }
     destruct (sel_sess _ _ _ _ HI Es) as (Hmb0 & sv & Hsv).
     destruct (mb_expunge m_del mb0) as [mb' cr] eqn:Ee.
     destruct (mb_expunge_ok _ _ _ _ Hmb0 Ee) as (Hmb' & -> & Hv).
@@ -811,6 +819,8 @@ Proof.
   - (* CUidExpunge *)
     destruct (sel_of st c) as [[m0 mb0]|] eqn:Es.
     2:{ inv_pair Hh. apply hspec_done; auto. }
+    destruct (ro_of st c) eqn:Er.
+    { inv_pair Hh. apply hspec_done; auto. }
     destruct (sel_sess _ _ _ _ HI Es) as (Hmb0 & sv & Hsv).
     match type of Hh with context [mb_expunge ?g mb0] => destruct (mb_expunge g mb0) as [mb' cr] eqn:Ee end.
     destruct (mb_expunge_ok _ _ _ _ Hmb0 Ee) as (Hmb' & -> & Hv).
@@ -833,6 +843,8 @@ Proof.
   - (* CMove *)
     destruct (sel_of st c) as [[m0 mb0]|] eqn:Es.
     2:{ inv_pair Hh. apply hspec_done; auto. }
+    destruct (ro_of st c) eqn:Er.
+    { inv_pair Hh. apply hspec_done; auto. }
     destruct (get (s_mbs st) dest) as [dmb|] eqn:Ed.
     2:{ inv_pair Hh. apply hspec_done; auto. }
     destruct (dest =? m0) eqn:Edm.
